@@ -100,12 +100,13 @@ func ReceiveFeedback(item *models.Item) error {
 		panic("item is not a seed")
 	}
 
-	item.SetSource(models.ItemSourceFeedback)
-	_, loaded := globalReactor.stateTable.Swap(item.GetID(), item)
-	if !loaded {
-		// An item sent to the feedback channel should be present on the state table, if not present reactor should error out
+	// An item sent to the feedback channel should be present on the state table, if not present reactor should error out.
+	// Check before storing: a rejected item must not end up tracked (it would never be finished and holds no token).
+	if _, loaded := globalReactor.stateTable.Load(item.GetID()); !loaded {
 		return ErrFeedbackItemNotPresent
 	}
+	item.SetSource(models.ItemSourceFeedback)
+	globalReactor.stateTable.Store(item.GetID(), item)
 	select {
 	case <-globalReactor.ctx.Done():
 		return ErrReactorShuttingDown
